@@ -13,8 +13,8 @@ LEVEL_TEXT = ("Lean 4 theorem fillNp_eq_rows over a transcription of every _nump
               "against per-row fills, with the theorem's hypotheses evaluated on the model's copy of each batch and byte-wise "
               "comparison of the input arrays.")
 LEVEL_NOTE = ("numpy.histogram / unique / average enter as their contracts; the scalar-weight protocol with unknown batch length is "
-              "outside the model (known finding C03-scalar-weight-count-first, excluded region: scalar/unit weights on trees with "
-              "collections). 'Input arrays unmodified' is a frame condition checked by the harness only.")
+              "outside the model (known finding C03-scalar-weight-count-first, excluded region: scalar/unit weights on trees in which a Count is visited before the "
+              "first quantity). 'Input arrays unmodified' is a frame condition checked by the harness only.")
 TECHNIQUE = "Lean 4 proof (vectorised = row-wise for all trees/batches) + correspondence against a transcription of _numpy + oracle"
 LEAN_MODULE = "Hg.Props.C03"
 THEOREMS = ["Hg.C03.fillNp_eq_rows", "Hg.C03.fillNp_split", "Hg.C03.sum_nan_np_differs"]
@@ -45,21 +45,39 @@ COLLECTIONS = ("Label", "UntypedLabel", "Index", "Branch")
 
 def scalar_weight_safe(spec):
     """known finding C03-scalar-weight-count-first: with a scalar weight, a Count-only subtree of a collection visited before
-    the batch length is known gets the wrong weight.  Scalar/unit weights are only generated for trees without collections."""
-    return not any(s["k"] in COLLECTIONS for s in gen.walk(spec))
+    the batch length is known gets the wrong weight.  Scalar/unit weights are generated only where the visit order keeps every Count behind the first quantity (gen.scalar_weight_safe)."""
+    return gen.scalar_weight_safe(spec)
 
 
 def gen_params(rng, tier):
     for _ in range(100):
-        spec = gen.gen_spec(rng, rng.randint(0, 3))
+        r = rng.random()
+        if r < 0.12:
+            spec = gen.gen_count_sibling_spec(rng)
+        elif r < 0.27:
+            # plain histograms (all bins Count): the vectorised fast paths (numpy.histogram, numpy.unique)
+            spec = gen.gen_spec(rng, rng.randint(1, 2), kinds=["Bin", "SparselyBin", "CentrallyBin", "IrregularlyBin", "Categorize", "Count"])
+        else:
+            spec = gen.gen_spec(rng, rng.randint(0, 3))
         if not has_quantity(spec):
             continue
         crit = gen.critical_values(spec)
+        noinf = rng.random() < (0.7 if 0.12 <= r < 0.27 else 0.35)   # a batch without infinities: several vectorised fast paths are only taken then
         rows = []
         for _i in range(rng.randint(0, 12)):
             d = gen.gen_datum(rng, crit)
             if d[gen.STR_COL] is None:
                 d[gen.STR_COL] = "NaN"
+            if noinf:
+                for c in gen.NUM_COLS:
+                    if isinstance(d[c], float) and d[c] in (float("inf"), float("-inf")):
+                        d[c] = rng.choice(crit) if crit else 0.5   # edges stay well represented
+            if rng.random() < 0.3:
+                # exactly on the upper edge of one of the Bins of the tree (numpy.histogram closes the last bin, fill does not)
+                tops = [(b["q"][0], b["high"]) for b in gen.walk(spec) if b["k"] == "Bin"]
+                if tops:
+                    c, hi = rng.choice(tops)
+                    d[c] = hi
             rows.append([d, rng.choice(NP_WEIGHTS)])
         if nan_reaches_sum(spec, rows):
             continue
@@ -75,6 +93,8 @@ def gen_params(rng, tier):
 
 def build(p):
     spec, mode = p["spec"], p["mode"]
+    if mode != "array" and not scalar_weight_safe(spec):
+        mode = "array"   # a shrunk tree may have left the region where scalar weights are safe
     rows = [(r[0], r[1]) for r in p["rows"]]
     eff = lambda w: 1.0 if mode == "unit" else (mode[1] if isinstance(mode, list) else w)  # noqa: E731
     ops = [("new", "v", spec), ("fillsnp", "v", rows, mode),
